@@ -92,6 +92,8 @@ func (f *FuncCtx) stmt(st *State, s ast.Stmt) *Flow {
 				if len(vs.Values) > 0 {
 					v := f.expr(st, vs.Values[i])
 					st.vars[obj] = f.implicit(st, v, f.typeOf(vs.Values[i]), obj.Type())
+				} else if valueStructs[namedPath(obj.Type())] {
+					st.vars[obj] = f.newZeroObject(st, obj.Type())
 				} else {
 					st.vars[obj] = f.zero(obj.Type())
 				}
